@@ -158,11 +158,11 @@ theorem Index.discard_nd (o : O) (keys : Option (List K)) (ix ix' : Index K V O)
         · simp only [hre, Bool.false_eq_true, if_false, Option.some.injEq] at he
           subst he; exact h1
 
-theorem replaceLoop_nd (veq : V → V → Bool) (o : O) (m : List (K × V)) :
+theorem replaceLoop_nd (o : O) (m : List (K × V)) :
     ∀ (items : List (K × Store O V)) (rev : List K),
       (items.map Prod.fst).Nodup → (∀ k st, (k, st) ∈ items → (st.map Prod.fst).Nodup) →
-      ((replaceLoop veq o m (items, rev)).1.map Prod.fst).Nodup ∧
-      (∀ k st, (k, st) ∈ (replaceLoop veq o m (items, rev)).1 → (st.map Prod.fst).Nodup) := by
+      ((replaceLoop o m (items, rev)).1.map Prod.fst).Nodup ∧
+      (∀ k st, (k, st) ∈ (replaceLoop o m (items, rev)).1 → (st.map Prod.fst).Nodup) := by
   induction m with
   | nil => intro items rev h1 h2; exact ⟨h1, h2⟩
   | cons p rest ih =>
@@ -179,18 +179,14 @@ theorem replaceLoop_nd (veq : V → V → Bool) (o : O) (m : List (K × V)) :
           | none => simp
           | some st0 => exact h2 k0 st0 (mem_of_aget hg)
         unfold Store.replace
-        split
-        · split
-          · exact hst
-          · exact keys_aset_nodup _ _ _ hst
-        · exact keys_aset_nodup _ _ _ hst
+        exact keys_aset_nodup _ _ _ hst
       · exact h2 k st h3
 
-theorem Index.replace_nd (veq : V → V → Bool) (o : O) (m : List (K × V)) (ix ix' : Index K V O)
-    (h : ix.ND) (he : ix.replace veq o m = some ix') : ix'.ND := by
+theorem Index.replace_nd (o : O) (m : List (K × V)) (ix ix' : Index K V O)
+    (h : ix.ND) (he : ix.replace o m = some ix') : ix'.ND := by
   unfold Index.replace at he
   refine Index.discard_nd o _ _ ix' ?_ he
-  obtain ⟨a, b⟩ := replaceLoop_nd veq o m ix.items
+  obtain ⟨a, b⟩ := replaceLoop_nd o m ix.items
     (match aget o ix.reverse with | some r => r | none => []) h.items h.stores
   exact ⟨a, b, keys_aset_nodup _ _ _ h.reverse⟩
 
@@ -219,8 +215,8 @@ theorem foldUpd_pres (P : Index (Option K) V O → Prop)
       · subst hj; rw [upd_same]; exact hf j _ _ (h j) hfi
       · rw [upd_other _ _ _ hj]; exact h j
 
-theorem applyOutcome_nd (veq : V → V → Bool) (o : O) (out : Outcome K V) (ix ix' : Index (Option K) V O)
-    (hp : ix.ND) (hq : applyOutcome veq o out ix = some ix') : ix'.ND := by
+theorem applyOutcome_nd (o : O) (out : Outcome K V) (ix ix' : Index (Option K) V O)
+    (hp : ix.ND) (hq : applyOutcome o out ix = some ix') : ix'.ND := by
   unfold applyOutcome at hq
   by_cases hx : out.exception = true
   · simp only [hx, if_true] at hq
@@ -228,13 +224,13 @@ theorem applyOutcome_nd (veq : V → V → Bool) (o : O) (out : Outcome K V) (ix
   · simp only [hx] at hq
     cases hr : out.result with
     | none => simp [hr] at hq; subst hq; exact hp
-    | some m => simp only [hr] at hq; exact Index.replace_nd _ _ _ ix ix' hp hq
+    | some m => simp only [hr] at hq; exact Index.replace_nd _ _ ix ix' hp hq
 
-theorem replaceAll_nd (veq : V → V → Bool) (ids : List Id) (o : O) (outs : List (Id × Outcome K V))
+theorem replaceAll_nd (ids : List Id) (o : O) (outs : List (Id × Outcome K V))
     (ixs ixs' : Id → Index (Option K) V O) (h : ∀ i, (ixs i).ND)
-    (he : replaceAll veq ids o outs ixs = some ixs') : ∀ i, (ixs' i).ND := by
+    (he : replaceAll ids o outs ixs = some ixs') : ∀ i, (ixs' i).ND := by
   unfold replaceAll at he
-  cases h1 : foldUpd (loop1 veq o outs) (outs.map Prod.fst) ixs with
+  cases h1 : foldUpd (loop1 o outs) (outs.map Prod.fst) ixs with
   | none => simp [h1] at he
   | some ixs1 =>
     simp only [h1] at he
@@ -244,7 +240,7 @@ theorem replaceAll_nd (veq : V → V → Bool) (ids : List Id) (o : O) (outs : L
       unfold loop1 at hq
       cases hg : aget i outs with
       | none => simp [hg] at hq; subst hq; exact hp
-      | some out => simp only [hg] at hq; exact applyOutcome_nd veq o out ix ix' hp hq
+      | some out => simp only [hg] at hq; exact applyOutcome_nd o out ix ix' hp hq
     refine foldUpd_pres Index.ND _ ?_ _ _ _ hnd1 he
     intro i ix ix' hp hq
     unfold loop2 at hq
@@ -253,8 +249,8 @@ theorem replaceAll_nd (veq : V → V → Bool) (ids : List Id) (o : O) (outs : L
     · rw [if_neg hs] at hq
       exact Index.discard_nd _ _ ix ix' hp hq
 
-theorem step_nd (veq : V → V → Bool) (cfg : List (Indexer Id Res L)) (bk : Nat) (s s' : State Id K V O)
-    (e : Event Id Res L K V O) (h : s.NDAll) (he : step veq cfg bk s e = some s') : s'.NDAll := by
+theorem step_nd (cfg : List (Indexer Id Res L)) (bk : Nat) (s s' : State Id K V O)
+    (e : Event Id Res L K V O) (h : s.NDAll) (he : step cfg bk s e = some s') : s'.NDAll := by
   unfold step at he
   by_cases hh : cfg.any (fun c => decide (c.res = e.res)) = true
   · simp only [hh, Bool.not_true, Bool.false_eq_true, if_false] at he
@@ -273,30 +269,30 @@ theorem step_nd (veq : V → V → Bool) (cfg : List (Indexer Id Res L)) (bk : N
             (fun c => (hstateOf e.t (s.mem e.obj) c.id).awake e.t)).map
             (fun c => (c.id, execOne c bk e.t (hstateOf e.t (s.mem e.obj) c.id) (e.script c.id))) := ⟨_, rfl⟩
       rw [← houts] at he
-      cases hrep : replaceAll veq (cfg.map (·.id)) e.obj outs s.ixs with
+      cases hrep : replaceAll (cfg.map (·.id)) e.obj outs s.ixs with
       | none => simp [hrep] at he
       | some ixs' =>
         simp only [hrep, Option.some.injEq] at he
         subst he
-        exact replaceAll_nd veq _ _ _ _ _ h hrep
+        exact replaceAll_nd _ _ _ _ _ h hrep
   · have hh' : cfg.any (fun c => decide (c.res = e.res)) = false := by simpa using hh
     simp only [hh', Bool.not_false, if_true, Option.some.injEq] at he
     subst he
     exact h
 
-theorem run_nd (veq : V → V → Bool) (cfg : List (Indexer Id Res L)) (bk : Nat)
+theorem run_nd (cfg : List (Indexer Id Res L)) (bk : Nat)
     (evs : List (Event Id Res L K V O)) : ∀ (s s' : State Id K V O), s.NDAll →
-    run veq cfg bk s evs = some s' → s'.NDAll := by
+    run cfg bk s evs = some s' → s'.NDAll := by
   induction evs with
   | nil => intro s s' h he; simp [run] at he; subst he; exact h
   | cons e es ih =>
     intro s s' h he
     simp only [run] at he
-    cases hs : step veq cfg bk s e with
+    cases hs : step cfg bk s e with
     | none => simp [hs] at he
     | some s1 =>
       simp only [hs] at he
-      exact ih s1 s' (step_nd veq cfg bk s s1 e h hs) he
+      exact ih s1 s' (step_nd cfg bk s s1 e h hs) he
 
 end Step
 end Kopf.C17
